@@ -786,26 +786,145 @@ Section Tokens.
     unfold find_and_expand. rewrite (find_uri_wf ts Hwf), Hf. reflexivity.
   Qed.
 
-  Lemma rounds k : forall ts,
-    nrefs ts <= k -> wf ts -> plain ts -> anchored ts ->
-    expand_rec def retrieve (S k) (CStr (flatten ts)) = Ok (CStr (flatten (subst_all ts))).
+  (* ---- counting on token strings ------------------------------------------------------------------------- *)
+  Lemma cnt_skip uri k nd c s :
+    cnt_aux uri (S k) nd (c :: s) = cnt_aux uri k (if is_dollar c then S nd else 0) s.
+  Proof. reflexivity. Qed.
+
+  Lemma cnt_zero uri nd c s :
+    cnt_aux uri 0 nd (c :: s) =
+    if prefix uri (c :: s)
+    then (if Nat.odd nd then 0 else 1) + cnt_aux uri (length uri - 1) (if is_dollar c then S nd else 0) s
+    else cnt_aux uri 0 (if is_dollar c then S nd else 0) s.
+  Proof. reflexivity. Qed.
+
+  Lemma cnt_skip_all uri w : forall nd t, cnt_aux uri (length w) nd (w ++ t) = cnt_aux uri 0 (run nd w) t.
   Proof.
-    induction k as [|k IH]; intros ts Hk Hwf Hp Ht; destruct (first_ref ts) as [n|] eqn:Hf.
-    - pose proof (nrefs_subst_lt n ts Hf). lia.
-    - rewrite (expand_rec_unchanged def retrieve _ _ (CStr (flatten ts))).
-      + now rewrite subst_all_no_ref.
-      + rewrite expand_value_str. now apply last_round.
-    - rewrite (expand_rec_changed def retrieve _ _ (CStr (flatten (subst n ts)))).
-      + rewrite IH.
-        * now rewrite subst_all_subst.
-        * pose proof (nrefs_subst_lt n ts Hf). lia.
-        * now apply wf_subst.
-        * now apply plain_subst.
-        * now apply anchored_subst.
-      + rewrite expand_value_str. now apply one_round.
-    - rewrite (expand_rec_unchanged def retrieve _ _ (CStr (flatten ts))).
-      + now rewrite subst_all_no_ref.
-      + rewrite expand_value_str. now apply last_round.
+    induction w as [|c w IH]; intros nd t; [reflexivity|]. cbn [length app]. rewrite cnt_skip. apply IH.
+  Qed.
+
+  Lemma cnt_copy uri' w : forall nd t,
+    has_char cDollar w = false ->
+    cnt_aux (cDollar :: uri') 0 nd (w ++ t) = cnt_aux (cDollar :: uri') 0 (run nd w) t.
+  Proof.
+    induction w as [|c w IH]; intros nd t Hw; [reflexivity|].
+    unfold has_char in Hw. cbn [existsb] in Hw. apply orb_false_iff in Hw as [H1 H2].
+    cbn [app]. rewrite cnt_zero, prefix_head_neq by exact H1. unfold has_char in IH. now rewrite (IH _ _ H2).
+  Qed.
+
+  Definition cntref (n : str) (ts : list tok) : nat :=
+    length (filter (fun t => match t with TRef m => str_eqb m n | _ => false end) ts).
+
+  Section Cnt.
+    Variable n : str.
+    Hypothesis Hn : name_ok n = true.
+    Let w := cOpen :: n ++ [cClose].
+    Let uri := ref_text n.
+
+    Lemma cnt_escaped nd c s :
+      prefix uri (c :: s) = true -> Nat.odd nd = true ->
+      cnt_aux uri 0 nd (c :: s) = cnt_aux uri 0 (if is_dollar c then S nd else 0) s.
+    Proof.
+      intros Hp Ho. rewrite cnt_zero, Hp, Ho. unfold uri. rewrite (len_uri n).
+      destruct (prefix_spec _ _ Hp) as [t Ht]. unfold uri in Ht. rewrite (uri_eq n) in Ht.
+      change ((cDollar :: cOpen :: n ++ [cClose]) ++ t) with (cDollar :: (w ++ t)) in Ht.
+      injection Ht as Hc Hs. subst c s. change (is_dollar cDollar) with true. cbv iota.
+      change (cOpen :: (n ++ [cClose]) ++ t) with (w ++ t).
+      fold w. rewrite cnt_skip_all. rewrite (uri_eq n). fold w.
+      rewrite (cnt_copy w w _ t (w_dollar_free n Hn)). reflexivity.
+    Qed.
+
+    Lemma cnt_tokens ts : forall nd pd,
+      wf_from pd ts -> Nat.even nd = negb pd ->
+      cnt_aux uri 0 nd (flatten ts) = cntref n ts.
+    Proof.
+      induction ts as [|t ts IH]; intros nd pd Hwf He; [reflexivity|].
+      rewrite flatten_cons. unfold cntref. cbn [filter]. fold (cntref n ts).
+      destruct t; cbn [wf_from tok_text app] in *.
+      - destruct Hwf as [Hc [_ Hr]]. rewrite cnt_zero. unfold uri. rewrite (uri_eq n), prefix_head_neq.
+        2:{ rewrite Ascii.eqb_sym. exact (char_ok_nd c Hc). }
+        rewrite (char_ok_nd c Hc). rewrite <- (uri_eq n). now apply (IH 0 false).
+      - rewrite cnt_zero. unfold uri. rewrite (uri_eq n), prefix_head_neq by reflexivity.
+        change (is_dollar cClose) with false. cbv iota. rewrite <- (uri_eq n). now apply (IH 0 false).
+      - destruct Hwf as [-> Hr]. cbn [negb] in He.
+        rewrite cnt_zero. unfold uri. rewrite (prefix_after_dollar n) by reflexivity.
+        change (is_dollar cDollar) with true. cbv iota. fold uri.
+        assert (Hcopy : cnt_aux uri 0 (S nd) (cDollar :: flatten ts) = cnt_aux uri 0 (S (S nd)) (flatten ts)).
+        { destruct (prefix uri (cDollar :: flatten ts)) eqn:Ep.
+          - apply cnt_escaped; [exact Ep|]. rewrite Nat.odd_succ. exact He.
+          - rewrite cnt_zero, Ep. reflexivity. }
+        rewrite Hcopy. apply (IH _ false Hr). rewrite Nat.even_succ_succ. exact He.
+      - destruct Hwf as [-> Hr]. cbn [negb] in He.
+        rewrite cnt_zero. unfold uri. rewrite (prefix_after_lone n ts Hr).
+        change (is_dollar cDollar) with true. cbv iota. fold uri.
+        apply (IH _ true Hr). rewrite Nat.even_succ, <- Nat.negb_even, He. reflexivity.
+      - destruct Hwf as [-> [[Hm _] Hr]]. cbn [negb] in He.
+        destruct (str_eqb name n) eqn:E.
+        + apply str_eqb_eq in E. subst name. cbn [length].
+          rewrite (uri_eq n). cbn [app]. rewrite cnt_zero.
+          assert (Hp : prefix uri (cDollar :: w ++ flatten ts) = true).
+          { unfold uri. rewrite (uri_eq n). apply (prefix_app_self (cDollar :: w)). }
+          change (cOpen :: (n ++ [cClose]) ++ flatten ts) with (w ++ flatten ts).
+          rewrite Hp, <- Nat.negb_even, He. cbn [negb]. unfold uri. rewrite (len_uri n). fold w.
+          rewrite cnt_skip_all. unfold w. rewrite (run_w n). fold uri. cbn [Nat.add]. f_equal. exact (IH 0 false Hr eq_refl).
+        + assert (Hp : prefix uri (ref_text name ++ flatten ts) = false).
+          { unfold uri. rewrite (prefix_other_ref n Hn name _ Hm). destruct (str_eqb n name) eqn:E2; [|reflexivity].
+            apply str_eqb_eq in E2. subst. rewrite str_eqb_refl in E. discriminate. }
+          rewrite (uri_eq name) in *. cbn [app] in *. rewrite cnt_zero, Hp.
+          change (is_dollar cDollar) with true. cbv iota.
+          change (cOpen :: (name ++ [cClose]) ++ flatten ts) with ((cOpen :: name ++ [cClose]) ++ flatten ts).
+          unfold uri. rewrite (uri_eq n).
+          rewrite (cnt_copy w (cOpen :: name ++ [cClose]) _ _ (w_dollar_free name Hm)).
+          rewrite (run_w name). change (cDollar :: w) with uri. exact (IH 0 false Hr eq_refl).
+    Qed.
+  End Cnt.
+
+  Lemma nrefs_subst_exact n ts : plain ts -> nrefs (subst n ts) + cntref n ts = nrefs ts.
+  Proof.
+    induction ts as [|t ts IH]; intros Hp; [reflexivity|].
+    pose proof (plain_cons _ _ Hp) as Hp'. specialize (IH Hp').
+    unfold subst in *. cbn [flat_map]. rewrite nrefs_app.
+    change (t :: ts) with ([t] ++ ts). rewrite (nrefs_app [t] ts).
+    unfold cntref in *. cbn [app filter].
+    destruct t; cbn [subst1]; try (change (nrefs [_]) with 0; lia).
+    destruct (str_eqb name n) eqn:E.
+    - rewrite nrefs_lit. change (nrefs [TRef name]) with 1. cbn [length]. lia.
+    - change (nrefs [TRef name]) with 1. lia.
+  Qed.
+
+  Lemma spent_round ts n :
+    wf ts -> anchored ts -> first_ref ts = Some n ->
+    spent def retrieve (CStr (flatten ts)) = cntref n ts.
+  Proof.
+    intros Hwf Ha Hf. cbn [spent]. unfold spent_string.
+    rewrite (one_round ts n Hwf Ha Hf), (guard_tokens ts n Hf), (find_uri_wf ts Hwf), Hf.
+    cbn [option_map]. rewrite (str_eqb_neq _ _ (not_single' ts n Ha Hf)).
+    destruct (first_ref_good ts false n Hwf Hf) as [Hn _].
+    unfold count_unescaped. exact (cnt_tokens n Hn ts 0 false Hwf eq_refl).
+  Qed.
+
+  Lemma rounds fuel : forall ts used,
+    nrefs ts < fuel -> used + nrefs ts <= max_expansions ->
+    wf ts -> plain ts -> anchored ts ->
+    expand_rec def retrieve fuel used (CStr (flatten ts)) = Ok (CStr (flatten (subst_all ts))).
+  Proof.
+    induction fuel as [|f IH]; intros ts used Hk Hb Hwf Hp Ha; [lia|].
+    cbn [expand_rec]. rewrite expand_value_str.
+    destruct (first_ref ts) as [n|] eqn:Hf.
+    - rewrite (one_round ts n Hwf Ha Hf).
+      change (spent def retrieve (CStr (flatten ts))) with (spent def retrieve (CStr (flatten ts))).
+      rewrite (spent_round ts n Hwf Ha Hf).
+      pose proof (nrefs_subst_exact n ts Hp) as He.
+      pose proof (nrefs_subst_lt n ts Hf) as Hlt.
+      assert (Hle : (max_expansions <? used + cntref n ts) = false) by (apply Nat.ltb_ge; lia).
+      rewrite Hle. rewrite IH.
+      + now rewrite subst_all_subst.
+      + lia.
+      + lia.
+      + now apply wf_subst.
+      + now apply plain_subst.
+      + now apply anchored_subst.
+    - rewrite (last_round ts Hwf Hf). now rewrite subst_all_no_ref.
   Qed.
 
   Lemma first_ref_lit_app s r : first_ref (lit_tokens s ++ r) = first_ref r.
@@ -834,13 +953,16 @@ Section Tokens.
       apply wf_lit_app; [|auto]. apply Hp. now left.
   Qed.
 
+  (* the flat token theorem WITHOUT "fewer than 1000 references": only the work budget remains *)
   Lemma tokens_main ts :
-    wf ts -> plain ts -> anchored ts -> nrefs ts < 1000 ->
+    wf ts -> plain ts -> anchored ts -> nrefs ts <= max_expansions ->
     resolve_string def retrieve (flatten ts) = Ok (CStr (sem ts)).
   Proof.
-    intros Hwf Hp Ht Hk. unfold resolve_string, resolve_leaf. rewrite max_rounds_S.
-    rewrite (rounds 999 ts) by (auto; lia). cbn [escape_dollars].
-    rewrite (unescape_tokens (subst_all ts) false (wf_subst_all ts false Hp Hwf) (first_ref_subst_all ts)).
+    intros Hwf Hp Ha Hk. unfold resolve_string, resolve_leaf, rec_fuel.
+    rewrite (rounds (S (S max_expansions)) ts 0); auto; try lia.
+    cbn [escape_dollars].
+    rewrite (unescape_tokens (subst_all ts) false (wf_subst_all ts false Hp Hwf)
+               (first_ref_subst_all ts)).
     now rewrite sem_subst_all.
   Qed.
 
